@@ -96,6 +96,36 @@ inductive Scope where
   | host (op : StrOp) (s : Bytes)
   | ip (neg : Bool) (net : SockAddr) (bits : Nat)   -- == / != "addr/bits" (bits 0 = whole address)
 
+/-- PCRE2 is called with PCRE2_UTF (data_config_pcre_compile()): pcre2_match() fails, and the
+    condition is taken as "no match", when the subject is not well-formed UTF-8 (RFC 3629:
+    no stray continuation bytes, no truncated or overlong forms, no surrogates, ≤ U+10FFFF) -/
+def validUtf8 : Bytes → Bool
+  | [] => true
+  | c :: rest =>
+    if c < 0x80 then validUtf8 rest
+    else if c < 0xc0 || c ≥ 0xf8 then false
+    else
+      let cont (b : UInt8) : Bool := b &&& 0xc0 == 0x80
+      if c < 0xe0 then
+        match rest with
+        | d :: r => cont d && (c &&& 0x3e != 0) && validUtf8 r
+        | _ => false
+      else if c < 0xf0 then
+        match rest with
+        | d :: e :: r =>
+          cont d && cont e && !(c == 0xe0 && d &&& 0x20 == 0) && !(c == 0xed && d ≥ 0xa0) && validUtf8 r
+        | _ => false
+      else
+        match rest with
+        | d :: e :: f :: r =>
+          cont d && cont e && cont f && !(c == 0xf0 && d &&& 0x30 == 0) &&
+            !(c > 0xf4 || (c == 0xf4 && d > 0x8f)) && validUtf8 r
+        | _ => false
+
+/-- `(?i)^lit` and `(?i)lit$` as PCRE2 (UTF mode) decides them for ASCII literals -/
+def reCaselessPrefix (lit u : Bytes) : Bool := validUtf8 u && preMatch true lit u
+def reCaselessSuffix (lit u : Bytes) : Bool := validUtf8 u && sufMatch true lit u
+
 /-- the request attributes conditions test -/
 structure Env where
   url : Bytes         -- r->uri.path
